@@ -17,12 +17,17 @@ import (
 
 // c23Result is what running every reader on one input produced.
 type c23Result struct {
-	violation string   // first disagreement between a cryptobyte reader and the model / encoding/asn1 values
+	violation  string   // first disagreement between a cryptobyte reader and the model / encoding/asn1 values
 	stdDiffers []string // acceptance differences between encoding/asn1 and the model that are not predicted (harness information)
 	predicted  []string // predicted representability differences that occurred
 	accepted   []string // readers that accepted the input
 	gray       bool
+	// boolTrailing is set when ReadOptionalASN1Boolean accepted trailing bytes inside the explicit tag.
+	boolTrailing string
 }
+
+// c23FindingBoolTrailing is the known-findings id of that defect.
+const c23FindingBoolTrailing = "F12"
 
 func (r *c23Result) fail(format string, a ...any) {
 	if r.violation == "" {
@@ -190,15 +195,39 @@ func c23CheckAll(in []byte, std bool) *c23Result {
 			}
 		}
 		chkS("int8", 8, func(s *cryptobyte.String) (bool, int64) { var o int8; ok := s.ReadASN1Integer(&o); return ok, int64(o) })
-		chkS("int16", 16, func(s *cryptobyte.String) (bool, int64) { var o int16; ok := s.ReadASN1Integer(&o); return ok, int64(o) })
-		chkS("int32", 32, func(s *cryptobyte.String) (bool, int64) { var o int32; ok := s.ReadASN1Integer(&o); return ok, int64(o) })
+		chkS("int16", 16, func(s *cryptobyte.String) (bool, int64) {
+			var o int16
+			ok := s.ReadASN1Integer(&o)
+			return ok, int64(o)
+		})
+		chkS("int32", 32, func(s *cryptobyte.String) (bool, int64) {
+			var o int32
+			ok := s.ReadASN1Integer(&o)
+			return ok, int64(o)
+		})
 		chkS("int64", 64, func(s *cryptobyte.String) (bool, int64) { var o int64; ok := s.ReadASN1Integer(&o); return ok, o })
 		chkS("int", strconv.IntSize, func(s *cryptobyte.String) (bool, int64) { var o int; ok := s.ReadASN1Integer(&o); return ok, int64(o) })
-		chkU("uint8", 8, func(s *cryptobyte.String) (bool, uint64) { var o uint8; ok := s.ReadASN1Integer(&o); return ok, uint64(o) })
-		chkU("uint16", 16, func(s *cryptobyte.String) (bool, uint64) { var o uint16; ok := s.ReadASN1Integer(&o); return ok, uint64(o) })
-		chkU("uint32", 32, func(s *cryptobyte.String) (bool, uint64) { var o uint32; ok := s.ReadASN1Integer(&o); return ok, uint64(o) })
+		chkU("uint8", 8, func(s *cryptobyte.String) (bool, uint64) {
+			var o uint8
+			ok := s.ReadASN1Integer(&o)
+			return ok, uint64(o)
+		})
+		chkU("uint16", 16, func(s *cryptobyte.String) (bool, uint64) {
+			var o uint16
+			ok := s.ReadASN1Integer(&o)
+			return ok, uint64(o)
+		})
+		chkU("uint32", 32, func(s *cryptobyte.String) (bool, uint64) {
+			var o uint32
+			ok := s.ReadASN1Integer(&o)
+			return ok, uint64(o)
+		})
 		chkU("uint64", 64, func(s *cryptobyte.String) (bool, uint64) { var o uint64; ok := s.ReadASN1Integer(&o); return ok, o })
-		chkU("uint", strconv.IntSize, func(s *cryptobyte.String) (bool, uint64) { var o uint; ok := s.ReadASN1Integer(&o); return ok, uint64(o) })
+		chkU("uint", strconv.IntSize, func(s *cryptobyte.String) (bool, uint64) {
+			var o uint
+			ok := s.ReadASN1Integer(&o)
+			return ok, uint64(o)
+		})
 		s := str()
 		ob := new(big.Int).SetInt64(-77)
 		if res.acc("ReadASN1Integer(*big.Int)", s.ReadASN1Integer(ob), iok, s, t.Rest, iwhy) && ob.Cmp(iv) != 0 {
@@ -580,7 +609,8 @@ func c23CheckOptional(res *c23Result, in []byte, t rc.TLV, q byte) {
 				if want && !innerWhole {
 					// trailing bytes inside the explicit tag after the BOOLEAN
 					if ok {
-						res.fail("[explicit-boolean-trailing] ReadOptionalASN1Boolean(%#02x) accepted %d trailing bytes inside the explicit tag after the BOOLEAN (ReadOptionalASN1Integer/OctetString reject this)", q, len(inner.Rest))
+						// finding c23FindingBoolTrailing: judged by the caller against known-findings.json
+						res.boolTrailing = fmt.Sprintf("ReadOptionalASN1Boolean(%#02x) accepted %d trailing bytes inside the explicit tag after the BOOLEAN (not a DER encoding of [tag] EXPLICIT BOOLEAN; ReadOptionalASN1Integer/OctetString reject the same shape)", q, len(inner.Rest))
 					}
 					continue
 				}
